@@ -25,11 +25,12 @@ type c12mutant struct {
 }
 
 type c12mctx struct {
-	src        string
-	ck         *c12Checked
-	out        []c12mutant
-	stack      []ast.Node
-	preludeEnd int
+	src              string
+	ck               *c12Checked
+	out              []c12mutant
+	stack            []ast.Node
+	preludeEnd       int
+	poolFrom, poolTo int
 }
 
 func (m *c12mctx) off(p token.Pos) int    { return m.ck.Fset.Position(p).Offset }
@@ -534,6 +535,9 @@ func c12Mutants(src string, ck *c12Checked) []c12mutant {
 	if i := strings.Index(src, c12PreludeEndMarker); i >= 0 {
 		m.preludeEnd = i
 	}
+	if i, j := strings.Index(src, "// pool begin"), strings.Index(src, "// pool end"); i >= 0 && j > i {
+		m.poolFrom, m.poolTo = i, j
+	}
 	var visit func(n ast.Node)
 	visit = func(n ast.Node) {
 		if n == nil {
@@ -569,6 +573,9 @@ func c12Mutants(src string, ck *c12Checked) []c12mutant {
 // inPrelude: sites in the fixed prelude are mutated too (they are part of the program) except the
 // marker machinery itself.
 func (m *c12mctx) inMarker(n ast.Node) bool {
+	if o := m.off(n.Pos()); o >= m.poolFrom && o < m.poolTo {
+		return true
+	}
 	for _, a := range m.stack {
 		if fd, ok := a.(*ast.FuncDecl); ok && (fd.Name.Name == "mark" || fd.Name.Name == "init") {
 			return true
